@@ -92,17 +92,24 @@ def python_bytes_to_unicode(
             # UTF-8 byte-order mark
             return 'utf-8'
 
-        first_two_lines = re.match(br'(?:[^\r\n]*(?:\r\n|\r|\n)){0,2}', source).group(0)
-        possible_encoding = re.search(br"coding[=:]\s*([-\w.]+)",
-                                      first_two_lines)
-        if possible_encoding:
-            e = possible_encoding.group(1)
-            if not isinstance(e, str):
-                e = str(e, 'ascii', 'replace')
-            return e
-        else:
-            # the default if nothing else has been set -> PEP 263
-            return encoding
+        # PEP 263: The declaration has to be a comment in the first or second
+        # line. The second line only counts if the first one contains nothing
+        # but a comment.
+        for line in re.split(br'\r\n|\r|\n', source, maxsplit=2)[:2]:
+            possible_encoding = re.match(br"[ \t\f]*#.*?coding[=:][ \t]*([-\w.]+)", line)
+            if possible_encoding:
+                e = str(possible_encoding.group(1), 'ascii', 'replace')
+                # Like Python, ignore suffixes like `-unix` of Emacs.
+                normalized = e[:12].lower().replace('_', '-')
+                if normalized == 'utf-8' or normalized.startswith('utf-8-'):
+                    return 'utf-8'
+                if normalized.startswith(('latin-1-', 'iso-8859-1-', 'iso-latin-1-')):
+                    return 'iso-8859-1'
+                return e
+            if not re.match(br'[ \t\f]*(?:#.*)?$', line):
+                break
+        # the default if nothing else has been set -> PEP 263
+        return encoding
 
     if isinstance(source, str):
         # only cast str/bytes
